@@ -49,7 +49,7 @@ type Case struct {
 
 // ---------------------------------------------------------------- script generation
 
-func genScript(t *rapid.T, m gen.Module) string {
+func genScript(t *rapid.T, m gen.Module, me int) string {
 	var sb strings.Builder
 	line := func(format string, args ...any) { fmt.Fprintf(&sb, format+"\n", args...) }
 	line("r = []")
@@ -87,7 +87,7 @@ func genScript(t *rapid.T, m gen.Module) string {
 	stored := 0
 	for i := 0; i < n; i++ {
 		x := anyVar()
-		switch vk.Uniform(t, 22) {
+		switch vk.Uniform(t, 25) {
 		case 0:
 			line("r.append(attempt(lambda: str(%s)))", x)
 		case 1:
@@ -159,6 +159,22 @@ func genScript(t *rapid.T, m gen.Module) string {
 			line("r.append(attempt(lambda: \"{}\".format(%s)))", x)
 		case 21:
 			line("r.append(attempt(lambda: dir(%s)))", x)
+		case 22, 23:
+			// values derived from shared ones, extended with a thread-specific element: must not write into shared storage
+			if tv := pick("tuple"); tv != "" {
+				line("r.append(attempt(lambda: %s[:1] + (%d,)))", tv, 1000+me)
+				line("r.append(attempt(lambda: (%s[:1] + (%d, %d)) + %s[1:]))", tv, 2000+me, me, tv)
+				line("r.append(attempt(lambda: %s * 1 + (%d,)))", tv, 3000+me)
+				line("r.append(attempt(lambda: %s))", tv)
+			}
+			if lv := pick("list"); lv != "" {
+				line("r.append(attempt(lambda: %s[:1] + [%d]))", lv, 4000+me)
+				line("r.append(attempt(lambda: (%s * 1) + [%d]))", lv, 5000+me)
+				line("r.append(attempt(lambda: sorted(%s[:2] + [%d], key = lambda e: 0)))", lv, 6000+me)
+				line("r.append(attempt(lambda: len(%s)))", lv)
+			}
+		case 24:
+			line("r.append(attempt(lambda: json.encode([\"thread-%d\", \"%s\", {\"key-%d\": \"v\"}]) + json.encode_indent({\"t\": \"%d\"})))", me, x, me, me)
 		}
 	}
 	return sb.String()
@@ -173,7 +189,7 @@ func genCase(t *rapid.T) Case {
 	c := Case{Module: gen.GenModule(t, true)}
 	n := 2 + vk.Uniform(t, 5)
 	for i := 0; i < n; i++ {
-		c.Scripts = append(c.Scripts, genScript(t, c.Module))
+		c.Scripts = append(c.Scripts, genScript(t, c.Module, i))
 		var ops []string
 		for j := 0; j < 3+vk.Uniform(t, 10); j++ {
 			ops = append(ops, goOpKinds[vk.Uniform(t, len(goOpKinds))])
